@@ -315,7 +315,7 @@ def run(chk):
                        'traversal_indexes, not a result of _find_name): the spelling keeps resolving to this proxy whatever the '
                        'structure becomes' % _norm(k), '%s:%d' % (fi.module.relpath, n.lineno),
                        key='C14-X|%s|%s' % (fi.qualname, _norm(k)))
-    chk.floor('proxy cache stores examined (C14-X)', nx_, 2)
+    chk.floor('proxy cache stores examined (C14-X)', nx_, 1)
 
     chk.rule('C14-G', 'names that address no child are refused (ChildNotFound / ChildNotValid) under the same conditions as in the reviewed tree')
     from . import guardrules
